@@ -501,13 +501,55 @@ func (e *Exec) next(it *IterV, x *ssa.Next) (Value, *GoPanic) {
 			return &TupleV{E: []Value{tb.F, tb.Const(64, 0), tb.Const(32, 0)}}, nil
 		}
 		b := s.B[it.Pos]
-		// ASCII only: a byte >= 0x80 starts a multi-byte sequence
-		if !e.branch(tb.Ult(b, tb.Const(8, 0x80))) {
-			panic(unsupported("range over string with non-ASCII bytes"))
-		}
 		i := it.Pos
+		if e.branch(tb.Ult(b, tb.Const(8, 0x80))) {
+			it.Pos++
+			return &TupleV{E: []Value{tb.T, tb.Const(64, uint64(i)), tb.ZExt(b, 32)}}, nil
+		}
+		// UTF-8 decoding as utf8.DecodeRuneInString does it (Unicode Table 3-7): one fork per
+		// sequence length; anything else is RuneError of width 1
+		in := func(x *Term, lo, hi uint64) *Term {
+			return tb.And(tb.Ule(tb.Const(8, lo), x), tb.Ule(x, tb.Const(8, hi)))
+		}
+		at := func(k int) *Term {
+			if i+k < len(s.B) {
+				return s.B[i+k]
+			}
+			return nil
+		}
+		low6 := func(x *Term) *Term { return tb.ZExt(tb.Extract(x, 5, 0), 32) }
+		cat := func(hi *Term, parts ...*Term) *Term { // hi then 6 bits per part
+			r := hi
+			for _, p := range parts {
+				r = tb.BOr(tb.Mul(r, tb.Const(32, 64)), low6(p))
+			}
+			return r
+		}
+		b1, b2, b3 := at(1), at(2), at(3)
+		if b1 != nil && e.branch(tb.And(in(b, 0xc2, 0xdf), in(b1, 0x80, 0xbf))) {
+			it.Pos += 2
+			return &TupleV{E: []Value{tb.T, tb.Const(64, uint64(i)), cat(tb.ZExt(tb.Extract(b, 4, 0), 32), b1)}}, nil
+		}
+		if b2 != nil {
+			lo := tb.Ite(tb.Eq(b, tb.Const(8, 0xe0)), tb.Const(8, 0xa0), tb.Const(8, 0x80))
+			hi := tb.Ite(tb.Eq(b, tb.Const(8, 0xed)), tb.Const(8, 0x9f), tb.Const(8, 0xbf))
+			c3 := tb.And(tb.And(in(b, 0xe0, 0xef), tb.And(tb.Ule(lo, b1), tb.Ule(b1, hi))), in(b2, 0x80, 0xbf))
+			if e.branch(c3) {
+				it.Pos += 3
+				return &TupleV{E: []Value{tb.T, tb.Const(64, uint64(i)), cat(tb.ZExt(tb.Extract(b, 3, 0), 32), b1, b2)}}, nil
+			}
+		}
+		if b3 != nil {
+			lo := tb.Ite(tb.Eq(b, tb.Const(8, 0xf0)), tb.Const(8, 0x90), tb.Const(8, 0x80))
+			hi := tb.Ite(tb.Eq(b, tb.Const(8, 0xf4)), tb.Const(8, 0x8f), tb.Const(8, 0xbf))
+			c4 := tb.And(tb.And(in(b, 0xf0, 0xf4), tb.And(tb.Ule(lo, b1), tb.Ule(b1, hi))), tb.And(in(b2, 0x80, 0xbf), in(b3, 0x80, 0xbf)))
+			if e.branch(c4) {
+				it.Pos += 4
+				return &TupleV{E: []Value{tb.T, tb.Const(64, uint64(i)), cat(tb.ZExt(tb.Extract(b, 2, 0), 32), b1, b2, b3)}}, nil
+			}
+		}
 		it.Pos++
-		return &TupleV{E: []Value{tb.T, tb.Const(64, uint64(i)), tb.ZExt(b, 32)}}, nil
+		return &TupleV{E: []Value{tb.T, tb.Const(64, uint64(i)), tb.Const(32, 0xfffd)}}, nil
 	}
 	tup := x.Type().(*types.Tuple)
 	for {
